@@ -126,6 +126,67 @@ func init() {
 			}
 			return out
 		},
+		"strings.Cut": func(fr *frame, a []value) value {
+			b, af, ok := strings.Cut(a[0].(string), a[1].(string))
+			return tuple{b, af, ok}
+		},
+		"strings.CutPrefix": func(fr *frame, a []value) value {
+			r, ok := strings.CutPrefix(a[0].(string), a[1].(string))
+			return tuple{r, ok}
+		},
+		"strings.CutSuffix": func(fr *frame, a []value) value {
+			r, ok := strings.CutSuffix(a[0].(string), a[1].(string))
+			return tuple{r, ok}
+		},
+		"strings.LastIndex":     func(fr *frame, a []value) value { return strings.LastIndex(a[0].(string), a[1].(string)) },
+		"strings.LastIndexByte": func(fr *frame, a []value) value { return strings.LastIndexByte(a[0].(string), byte(asInt(a[1]))) },
+		"strings.IndexByte":     func(fr *frame, a []value) value { return strings.IndexByte(a[0].(string), byte(asInt(a[1]))) },
+		"strings.Index":         func(fr *frame, a []value) value { return strings.Index(a[0].(string), a[1].(string)) },
+		"strings.TrimLeft":      func(fr *frame, a []value) value { return strings.TrimLeft(a[0].(string), a[1].(string)) },
+		"strings.TrimRight":     func(fr *frame, a []value) value { return strings.TrimRight(a[0].(string), a[1].(string)) },
+		"strings.Trim":          func(fr *frame, a []value) value { return strings.Trim(a[0].(string), a[1].(string)) },
+		"strings.Repeat":        func(fr *frame, a []value) value { return strings.Repeat(a[0].(string), asInt(a[1])) },
+		"strings.ReplaceAll":    func(fr *frame, a []value) value { return strings.ReplaceAll(a[0].(string), a[1].(string), a[2].(string)) },
+		"strings.SplitN": func(fr *frame, a []value) value {
+			var out []value
+			for _, s := range strings.SplitN(a[0].(string), a[1].(string), asInt(a[2])) {
+				out = append(out, s)
+			}
+			return out
+		},
+		"strings.Fields": func(fr *frame, a []value) value {
+			var out []value
+			for _, s := range strings.Fields(a[0].(string)) {
+				out = append(out, s)
+			}
+			return out
+		},
+		"strings.Join": func(fr *frame, a []value) value {
+			var parts []string
+			for _, p := range a[0].([]value) {
+				parts = append(parts, p.(string))
+			}
+			return strings.Join(parts, a[1].(string))
+		},
+		"strconv.ParseInt": func(fr *frame, a []value) value {
+			u, err := strconv.ParseInt(a[0].(string), asInt(a[1]), asInt(a[2]))
+			if err != nil {
+				return tuple{u, mkError(fr, err.Error())}
+			}
+			return tuple{u, iface{}}
+		},
+		"strconv.Atoi": func(fr *frame, a []value) value {
+			u, err := strconv.Atoi(a[0].(string))
+			if err != nil {
+				return tuple{u, mkError(fr, err.Error())}
+			}
+			return tuple{u, iface{}}
+		},
+		"strconv.FormatUint": func(fr *frame, a []value) value { return strconv.FormatUint(uint64(asInt64(a[0])), asInt(a[1])) },
+		"strconv.FormatInt":  func(fr *frame, a []value) value { return strconv.FormatInt(asInt64(a[0]), asInt(a[1])) },
+		"path/filepath.Base": func(fr *frame, a []value) value { return filepath.Base(a[0].(string)) },
+		"path/filepath.Dir":  func(fr *frame, a []value) value { return filepath.Dir(a[0].(string)) },
+		"path/filepath.Ext":  func(fr *frame, a []value) value { return filepath.Ext(a[0].(string)) },
 		"strconv.ParseUint": func(fr *frame, a []value) value {
 			u, err := strconv.ParseUint(a[0].(string), asInt(a[1]), asInt(a[2]))
 			if err != nil {
